@@ -8,5 +8,5 @@ for c in worlda worldb; do
   (cd harness/$c && cargo build --offline 2>&1 | tail -n 1 && cargo build --offline --release 2>&1 | tail -n 1)
 done
 V="$PWD"
-(cd /repo && CARGO_TARGET_DIR="$V/target/cli" cargo build --offline --release -p rsass-cli 2>&1 | tail -n 1) || true
+(cd "${VERIF_REPO:-/repo}" && CARGO_TARGET_DIR="$V/target/cli" cargo build --offline --release -p rsass-cli 2>&1 | tail -n 1) || true
 echo setup done
